@@ -436,6 +436,50 @@ def sequence_check(spec, m, rng, calls):
     return out
 
 
+def growth_check(spec, rng, calls):
+    """the systems are those of the model AS IT NOW IS: everything evaluated once, an explicit ODE term added to the live model,
+    the plain ODE evaluated, then — Jacobian FIRST, right-hand side second — the systems of the grown model.  -> violations"""
+    import pg
+    nS, nP = spec["nS"], spec["nP"]
+    if not nP:
+        return []
+    m = build(spec)
+    out = []
+    x = np.round(rng.uniform(0.5, 1.5, nS), 4)
+    for call in calls:
+        layout, rhs, jac = CALLS[call]
+        n = nS + nS * nP + (nS * nS if call == "iv" else 0)
+        z = np.round(np.concatenate([x, rng.uniform(-1.0, 1.0, n - nS)]), 4)
+        jac(m, z, 0.0); rhs(m, z, 0.0)
+    term = "1/3*p0*x0*x%d" % (nS - 1)
+    m.add_ode(pg.Transition(origin="x0", equation=term, transition_type=pg.TransitionType.ODE))
+    spec2 = dict(spec, eqs=[spec["eqs"][0] + "+" + term] + list(spec["eqs"][1:]))
+    theta = np.asarray(spec["theta"], dtype=float)
+    m.ode(x, 0.0)
+    for call in calls:
+        layout, rhs, jac = CALLS[call]
+        n = nS + nS * nP + (nS * nS if call == "iv" else 0)
+        z = np.round(np.concatenate([x, rng.uniform(-1.0, 1.0, n - nS)]), 4)
+        inp = dict(kind="growth", call=call, spec=spec, z=z.tolist())
+        try:
+            Jc = np.asarray(jac(m, z, 0.0), dtype=float)
+            r = np.asarray(rhs(m, z, 0.0), dtype=float)
+        except Exception as e:      # noqa: B902
+            out.append(("after-add_ode/raises-" + CLS[call], "%s raised %s: %s after an ODE term was added to the live model" % (call, type(e).__name__, e), inp))
+            continue
+        want = spec_rhs(spec2, z, theta, layout)
+        if r.shape != want.shape or not np.all(np.abs(r - want) <= RHS_RTOL * (1 + np.abs(want).max())):
+            out.append(("after-add_ode/rhs-" + CLS[call], "%s right-hand side is not that of the grown model (max error %s)"
+                        % (call, float(np.abs(r - want).max()) if r.shape == want.shape else None), inp))
+            continue
+        Jn = num_jac(lambda y: spec_rhs(spec2, y, theta, layout), z)
+        if Jc.shape != Jn.shape or float(np.abs(Jc - Jn).max()) > JAC_RTOL * (1 + np.abs(Jn).max()):
+            out.append(("after-add_ode/jacobian-" + CLS[call], "%s Jacobian (asked for before the right-hand side) is not the derivative of "
+                        "the grown model's system: max |supplied - central difference of the reference| = %.3g"
+                        % (call, float(np.abs(Jc - Jn).max()) if Jc.shape == Jn.shape else -1.0), inp))
+    return out
+
+
 def run_search(ck):
     rng = np.random.default_rng([ck.seed, 1313])
     specs = [dict(c) for c in CORPUS]
@@ -449,6 +493,7 @@ def run_search(ck):
     worst = {"jacobian": 0.0, "integrated": 0.0}
     dist = {}
     n_int = 0
+    n_growth = 0
     for spec in specs:
         nS, nP = spec["nS"], spec["nP"]
         try:
@@ -483,6 +528,11 @@ def run_search(ck):
                 ck.violation(cls + "-" + zt, what + " [point handed over as %s]" % zt, dict(kind="point", call=call, spec=spec, z=z.tolist(), ztype=zt))
         for cls, what, inp in sequence_check(spec, m, rng, calls):
             ck.violation(cls, what, inp)
+        if spec.get("backend") != "cython" and n_growth < ck.budget(5, 30):
+            n_growth += 1
+            ck.case(dict(kind="growth", nS=nS, nP=nP, eqs=spec["eqs"]), nontrivial=True)
+            for cls, what, inp in growth_check(spec, rng, calls):
+                ck.violation(cls, what, inp)
         ck.case(dict(kind="sequence", nS=nS, nP=nP, eqs=spec["eqs"]), nontrivial=True)
         # integrated sensitivities: every lambda-back-end model in thorough, the first ones in quick
         if spec.get("backend") == "cython" or (ck.quick and n_int >= 8):
@@ -569,6 +619,9 @@ def replay(ck, data):
     spec = inp["spec"]
     if inp["kind"] == "point":
         cls, what, _ = point_check(spec, np.array(inp["z"], dtype=float), inp["call"], ztype=inp.get("ztype"))
+    elif inp["kind"] == "growth":
+        r = growth_check(spec, np.random.default_rng(0), [inp["call"]])
+        return r[0][1] if r else None
     elif inp["kind"].startswith("sequence"):
         r = sequence_check(spec, build(spec), np.random.default_rng(0), [inp["call"]])
         return r[0][1] if r else None
